@@ -270,7 +270,7 @@ bool RejectWriter::should_write_as_unified() const
     // context diff these days, so we write unified diffs in unified
     // format to avoid confusion.
     return m_reject_format == Options::RejectFormat::Unified
-        || (m_reject_format == Options::RejectFormat::Default && m_patch.format == Format::Unified);
+        || (m_reject_format == Options::RejectFormat::Default && (m_patch.format == Format::Unified || m_patch.format == Format::Git));
 }
 
 Result apply_patch(File& out_file, RejectWriter& reject_writer, const std::vector<Line>& lines, Patch& patch, const Options& options, std::ostream& out)
